@@ -89,6 +89,10 @@ class FieldArrayModel(FieldCompositeModel):
         
     def post_randomize(self, visited):
         FieldCompositeModel.post_randomize(self, visited)
+        if self.is_rand_sz and self.is_scalar:
+            # Drop the elements that were pre-extended for the solve
+            # and lie beyond the solved size
+            del self.field_l[int(self.size.get_val()):]
         self.sum_expr = None
         self.sum_expr_btor = None
         self.product_expr = None
